@@ -32,6 +32,9 @@ CHECKS = {
  "C07": ("Exhaustive cross product over a program/document pool: every (program, document) pair is rendered under 50 configurations (single-line summary x -v x -p x six --show-summary selections; -o json/yaml x summary x -v; structured json/yaml/junit/sarif via files, stdin and --payload; run_checks verbose and non-verbose); each rendering is parsed back by a dedicated extractor into the verdict components it exposes and compared with the library's verbose record; structured JSON/YAML must parse and denote the same data, JUnit must be well-formed with the pair's status as its mark, SARIF must have one result per failing check of the JSON report.",
          "Trusted base: the extractors in report.rs (console table, detail lines, verbose tree, embedded and structured JSON/YAML, JUnit via quick-xml, SARIF). Console detail lines are checked for soundness only. Documents are generic (not CloudFormation/Terraform shaped).",
          "exhaustive enumeration of programs x documents x output configurations x entry points, cross-rendering differential oracle"),
+ "C12": ("Exhaustive exploration of batch states: every ordered selection of 1..2 (quick) / 1..3 (thorough) rules files from a pool of eight that deliberately share variable and rule names x every ordered selection of 1..3 / 1..4 documents from six x eight batch modes (explicit arguments, directories walked with -a and with -m where mtimes realise the reverse order, payload lists; plain, structured json, junit); the result of every (rules, data) pair extracted from the batch output is compared with that pair validated alone and the batch exit code must be the failure code iff some pair fails; likewise every ordered suite of 1..3 / 1..4 test cases against each case alone.",
+         "Trusted base: the per-pair extractors for the console table, structured JSON and JUnit. Rule names shared across rules files are merged by the structured report, so that comparison is on sets.",
+         "exhaustive enumeration of ordered file selections x batch modes, differential oracle batch vs singleton runs"),
 }
 PENDING_REASON = "check under construction in this round (design in DESIGN.md section 5); not claimed until its quick tier runs clean on the unchanged tree"
 ALL = ["C%02d" % i for i in range(1, 20)]
